@@ -209,7 +209,8 @@ class InventoryFileReader:
         while not self.eof:
             line = self.readline()
             if line:
-                yield line
+                # split at every line boundary that Sphinx (str.splitlines) recognises
+                yield from line.splitlines()
 
     def read_compressed_chunks(self) -> Iterator[bytes]:
         decompressor = zlib.decompressobj()
@@ -220,14 +221,10 @@ class InventoryFileReader:
         yield decompressor.flush()
 
     def read_compressed_lines(self) -> Iterator[str]:
-        buf = b""
-        for chunk in self.read_compressed_chunks():
-            buf += chunk
-            pos = buf.find(b"\n")
-            while pos != -1:
-                yield buf[:pos].decode()
-                buf = buf[pos + 1 :]
-                pos = buf.find(b"\n")
+        # split into lines as Sphinx does (str.splitlines), which also yields
+        # a last line that is not terminated by a newline
+        content = b"".join(self.read_compressed_chunks())
+        yield from content.decode().splitlines()
 
 
 @functools.lru_cache(maxsize=256)
